@@ -237,6 +237,13 @@ Authorized(c, pol, a, o) ==
 R_C01_Mediation(c, pol, req, a, o) == (o.reached /\ NonSkip(req)) => Authorized(c, pol, a, o)
 R_C01_AuthOnly202(c, pol, req, a, o) == (req.kind = "authonly" /\ o.status = 202) => Authorized(c, pol, a, o)
 R_C01_AuthOnlyNeverProxies(c, pol, req, a, o) == req.kind = "authonly" => ~o.reached
+\* "has passed any refresh/revalidation that was due": the one exception the system makes (an authenticator that is
+\* unavailable, C05) is bounded, so a request let through on it after the bound has elapsed - measured from the first
+\* unavailable answer of the episode, a fact of the history (ghost), not from whatever the cookie claims - reached the
+\* upstream on a check that was due and never passed.  (One direction of C05_GraceBound, under C01's name.)
+R_C01_GraceIsNoBypass(gh, c, pol, req, a, o) ==
+   (o.reached /\ NonSkip(req) /\ req.kind = "page" /\ Sound(c, pol) /\ EffUnavail(c, pol, a)) =>
+      (IF gh.firstFail # NoGrace THEN gh.firstFail ELSE 0) <= GraceTTL
 
 \* C04
 R_C04_LifeNeverMoves(c, pol, req, a, o) == (c.kind = "sess" /\ o.after.kind = "sess") => o.after.life = c.life
@@ -288,6 +295,7 @@ Rules(gh, c, pol, req, a, o) ==
    [ C01_Mediation            |-> R_C01_Mediation(c, pol, req, a, o),
      C01_AuthOnly202          |-> R_C01_AuthOnly202(c, pol, req, a, o),
      C01_AuthOnlyNeverProxies |-> R_C01_AuthOnlyNeverProxies(c, pol, req, a, o),
+     C01_GraceIsNoBypass      |-> R_C01_GraceIsNoBypass(gh, c, pol, req, a, o),
      C04_LifeNeverMoves       |-> R_C04_LifeNeverMoves(c, pol, req, a, o),
      C04_LifetimeBound        |-> R_C04_LifetimeBound(gh, req, o),
      C04_RecheckDue           |-> R_C04_RecheckDue(c, pol, req, a, o),
